@@ -24,6 +24,7 @@ def obligations():
         Obl("C13.kernel.2atoms_2pts", "py", H, "check_sasa", enc, "2 atoms, 2 points, all selected, atom mode", "areas equal the independent evaluation on every path", 300, params={"n_atoms": 2, "n_points": 2}),
         Obl("C13.kernel.2atoms_4pts", "py", H, "check_sasa", enc, "2 atoms, 4 points", "same", 600, params={"n_atoms": 2, "n_points": 4}),
         Obl("C13.kernel.groups", "py", H, "check_sasa", enc, "2 atoms mapped to one group (residue mode)", "group output is the sum over its atoms", 300, params={"n_atoms": 2, "n_points": 2, "mapping": "residue"}),
+        Obl("C13.kernel.3atoms_2groups_1pt", "py", H, "check_sasa", enc, "3 atoms in 2 groups (fewer groups than atoms), 1 point", "group sums with n_groups < n_atoms across two frames", 600, params={"n_atoms": 3, "n_points": 1, "mapping": "residue", "max_paths": 20000}),
         Obl("C13.kernel.mask_first", "py", H, "check_sasa", enc, "2 atoms, only the first selected", "unselected atoms contribute nothing and still shadow selected ones", 300, params={"n_atoms": 2, "n_points": 2, "mask": "first"}),
         Obl("C13.kernel.mask_rest", "py", H, "check_sasa", enc, "2 atoms, only the second selected", "same", 300, params={"n_atoms": 2, "n_points": 2, "mask": "rest"}),
         Obl("C13.kernel.3atoms", "py", H, "check_sasa", enc, "3 atoms, 2 points (about 1000 paths)", "same with a third atom (neighbour cache order)", 1500, params={"n_atoms": 3, "n_points": 2, "max_paths": 20000}, tiers=("thorough",)),
